@@ -4,7 +4,7 @@ Shares no code with gaftools. Deliberately boring: dicts, lists, brute force."""
 import re
 import itertools
 
-COMP = {"A": "T", "C": "G", "G": "C", "T": "A", "N": "N"}
+COMP = {"A": "T", "C": "G", "G": "C", "T": "A", "N": "N", "a": "t", "c": "g", "g": "c", "t": "a", "n": "n"}
 
 
 def revcomp(s):
